@@ -34,7 +34,7 @@ Print Assumptions C08_forwarded_exactly.
 
 (* ... so a class that enabled no keyword flag is serialized identically under every outer class,
    outer flag set and outer run-time keyword values (pd: default dialect handed down by the
-   compiling builder, = None under a mixin root by K9 / pass_dd) *)
+   compiling builder, = None under a mixin root by K14 / pass_dd) *)
 Theorem C08_no_leak :
   forall (ct: list cls) (spec: bool) (cid: nat) (ch: list node) (outer outer': flags) (a a': kwv) (pd: option ns),
     flags_c ct cid = no_flags ->
